@@ -43,13 +43,13 @@ def run_impl(f, q, metric_idx=None):
     sql = L.compile(metrics=mr, dimensions=drefs, filters=[jg.jsql(e, m + ".") for m, e in q["filters"]])
     cur = L.conn.execute(sql)
     cols = [d[0] for d in cur.description]
-    return cols, cur.fetchall(), sql
+    return cols, jg.canon_times(cur.fetchall()), sql
 
 
 def as_map(q, cols, rows):
     """rows -> {dimension tuple: {metric name: value}} ; None if some group appears twice"""
     nd = len(q["dims"])
-    dn = ["d%d" % i for i in range(nd)]
+    dn = [jg.dim_col(i, e) for i, (_, e) in enumerate(q["dims"])]
     out = {}
     for r in rows:
         d = dict(zip(cols, r))
@@ -142,7 +142,7 @@ def run(c):
                 # model metric columns are grouped by model in `order`
                 names = [("m%d" % j) for mm in order.split(",") for j, (m, *_r) in enumerate(q["mets"]) if m == mm]
                 nd = len(q["dims"])
-                impl_rows = [tuple(dict(zip(cols, r))["d%d" % k] for k in range(nd)) + tuple(dict(zip(cols, r))[nm] for nm in names) for r in rows]
+                impl_rows = [tuple(dict(zip(cols, r))[jg.dim_col(k, q["dims"][k][1])] for k in range(nd)) + tuple(dict(zip(cols, r))[nm] for nm in names) for r in rows]
                 q2 = dict(q, mets=[q["mets"][int(nm[1:])] for nm in names])
                 exempt = {jj for jj, nm in enumerate(names) if q2["mets"][jj][1] in ("sum", "avg")}   # hash-dependent values under K2 stay exempt
                 if not c02.compare(q2, impl_rows, mrows, exempt if False else set()) and not c02.compare(q2, impl_rows, mrows, exempt):
